@@ -295,7 +295,7 @@ impl OwnedVisitor for TypedRoundTrip<'_> {
 
 pub fn run(ctx: &Ctx, c02: bool) {
     let (shapes, k) = shapes_for(ctx, 3, 4);
-    let dom = Domain { cap: if ctx.quick() { 1024 } else { 4096 }, long: !ctx.quick() };
+    let dom = Domain { cap: if ctx.quick() { 1024 } else { 4096 }, long: true };
     let kinds = std::sync::Mutex::new(BTreeSet::new());
     let nvals = AtomicU64::new(0);
     let samples = std::sync::Mutex::new(Vec::new());
@@ -348,6 +348,7 @@ pub fn run(ctx: &Ctx, c02: bool) {
     if c02 {
         special_rules(ctx);
     }
+    long_cases(ctx, c02);
     whole_domain_leaves(ctx, c02);
     let mut tv = TypedRoundTrip { ctx, c02, types: 0 };
     for_each_owned_type(&mut tv);
@@ -503,4 +504,67 @@ fn special_rules(ctx: &Ctx) {
     ctx.add_evals(n * 2 + m);
     ctx.add_nontrivial(n + m);
     let _ = (dom, en);
+}
+
+
+/// values whose length prefixes sit at the larger varint boundaries (2^14, 2^21) and long sequences
+fn long_cases(ctx: &Ctx, c02: bool) {
+    let mut cases: Vec<(Shape, Val)> = vec![];
+    for n in [16383usize, 16384, 16385, (1 << 21) - 1, 1 << 21] {
+        cases.push((Shape::Bytes, Val::Bytes((0..n).map(|i| (i % 251) as u8).collect())));
+        cases.push((Shape::Str, Val::Str("k".repeat(n))));
+    }
+    for n in [16383usize, 16384] {
+        cases.push((Shape::Seq(Box::new(Shape::U8)), Val::Seq(vec![Val::U8(7); n])));
+        cases.push((Shape::Seq(Box::new(Shape::U16)), Val::Seq((0..n).map(|i| Val::U16(i as u16)).collect())));
+        cases.push((Shape::Map(Box::new(Shape::U16), Box::new(Shape::Bool)), Val::Map((0..n).map(|i| (Val::U16(i as u16), Val::Bool(i % 2 == 0))).collect())));
+        cases.push((Shape::Tuple(vec![Shape::Str, Shape::Seq(Box::new(Shape::Unit)), Shape::U8]), Val::Tuple(vec![Val::Str("z".repeat(n)), Val::Seq(vec![Val::Unit; 300]), Val::U8(9)])));
+    }
+    cases.par_iter().enumerate().for_each(|(i, (s, v))| {
+        with_shape(s, || {
+            let r = trap(|| -> Result<(), String> {
+                let e = postcard::to_allocvec(&AsData(v)).map_err(|e| format!("to_allocvec: {e:?}"))?;
+                if c02 {
+                    let want = spec_encode(v).unwrap();
+                    if e != want {
+                        return Err(format!("long value: {} bytes, spec {} bytes, first difference at {:?}", e.len(), want.len(), e.iter().zip(&want).position(|(a, b)| a != b)));
+                    }
+                    return Ok(());
+                }
+                // encoders
+                let mut buf = vec![0u8; e.len() + 3];
+                if postcard::to_slice(&AsData(v), &mut buf).map(|o| o.len()) != Ok(e.len()) || buf[..e.len()] != e[..] {
+                    return Err("to_slice differs from to_allocvec on a long value".into());
+                }
+                if postcard::to_io(&AsData(v), Vec::new()).ok().as_ref() != Some(&e) || postcard::to_extend(&AsData(v), Vec::new()).ok().as_ref() != Some(&e) {
+                    return Err("to_io / to_extend differ from to_allocvec on a long value".into());
+                }
+                if postcard::experimental::serialized_size(&AsData(v)) != Ok(e.len()) {
+                    return Err("serialized_size differs on a long value".into());
+                }
+                let mut input = e.clone();
+                input.extend_from_slice(&[0xFF, 0x80]);
+                match postcard::take_from_bytes::<Dyn>(&input) {
+                    Ok((Dyn(got), rem)) if &got == v && rem == [0xFF, 0x80] => {}
+                    other => return Err(format!("take_from_bytes on a long value: {:?}", other.map(|x| x.1.len()))),
+                }
+                let mut scratch = vec![0u8; e.len() + 8];
+                match postcard::from_io::<Dyn, _>((&input[..], &mut scratch[..])) {
+                    Ok((Dyn(got), (rest, _))) if &got == v && rest.len() == 2 => {}
+                    other => return Err(format!("from_io on a long value: {:?}", other.map(|x| x.1 .0.len()))),
+                }
+                Ok(())
+            });
+            let r = match r {
+                Ok(x) => x,
+                Err(p) => Err(format!("panic: {p}")),
+            };
+            if let Err(what) = r {
+                ctx.violation(if c02 { "wire-format-long" } else { "round-trip-long" }, what, i as u64, json!({"shape": s, "value_len": format!("{:?}", v).len()}));
+            }
+        });
+    });
+    ctx.add_evals(cases.len() as u64);
+    ctx.add_nontrivial(cases.len() as u64);
+    ctx.class("long-values(2^14, 2^21 boundaries)", cases.len() as u64);
 }
